@@ -40,8 +40,11 @@ def tree_hash(repo=None):
     for p in _tree_files(repo):
         h.update(os.path.relpath(p, repo).encode())
         h.update(b"\0")
-        with open(p, "rb") as fh:
-            h.update(hashlib.sha256(fh.read()).digest())
+        try:
+            with open(p, "rb") as fh:
+                h.update(hashlib.sha256(fh.read()).digest())
+        except OSError:
+            h.update(b"<unreadable>")       # e.g. a dangling symlink in a scratch copy: not an input of the build
     _tree_hash_memo[repo] = h.hexdigest()
     return _tree_hash_memo[repo]
 
